@@ -135,7 +135,7 @@ class Prog:
     def channel(self, lf, name, data=None, cast=None, dataset_name=None, layout='C', ref=None, **kw):
         ref = ref or self.ref('c')
         st = {'op': 'add', 'lf': lf, 'cls': 'channel', 'ref': ref, 'name': name,
-              'kw': {k: v for k, v in kw.items() if k not in ('set_name', 'origin_reference') and v is not None}}
+              'kw': {k: v for k, v in kw.items() if k not in ('set_name', 'origin_reference', 'cast_as_dtype') and v is not None}}
         for k in ('set_name', 'origin_reference'):
             if kw.get(k) is not None:
                 st[k] = kw[k]
@@ -145,6 +145,8 @@ class Prog:
             self._ch_arr[ref] = aid
         if cast is not None:
             st['cast_dtype'] = {'t': 'dtype', 'v': cast}
+            if kw.pop('cast_as_dtype', False):
+                st['cast_dtype']['as'] = 'dtype'          # a numpy.dtype instance instead of the scalar type
             self._ch_cast[ref] = cast
         if dataset_name is not None:
             st['dataset_name'] = dataset_name
